@@ -262,7 +262,7 @@ PROPS["C01"] = dict(
     streams=["C01"],
     compare=cmp_exact,
     classify=classify_c01,
-    gate_imports="From Coq Require Import String Ascii.\nFrom Cel.Model Require Import Parser Position Grammar Surface.\nFrom Cel.Proofs Require Import ParserProofs GrammarProps.",
+    gate_imports="From Coq Require Import String Ascii.\nFrom Cel.Model Require Import Parser Position Grammar Surface.\nFrom Cel.Proofs Require Import ParserProofs LexerTotal GrammarProps.",
     exhaustive=True,
     exhaustive_note="all token strings of length <= 4 (thorough: <= 5) over a 16-token alphabet joined "
                     "by spaces, and of length <= 3 (4) over five further alphabets (operators, calls and "
